@@ -23,7 +23,7 @@ META = {
                     "tolerance 1e-9*(1+sum|terms|)", "events strictly inside cells/bins: reference gridding known by construction"],
     "deciding": ["trace:observed_statistic", "trace:test_distribution[j]~simulated_catalog[j]"],
 }
-META["added"] = 'Added: per-simulation prescribed-count clause, low-rate L-tests (Poisson draw often 0), tiny-rate bins holding events, catalogs gridded on another region before the test, shared object histories / layouts from gridcases (regridded or in-place re-ordered catalogs, Fortran / transposed tables). array-valued scale factors. evaluated / re-scaled / evaluated histories, on-edge magnitudes.'
+META["added"] = 'Added: per-simulation prescribed-count clause, low-rate L-tests (Poisson draw often 0), tiny-rate bins holding events, catalogs gridded on another region before the test, shared object histories / layouts from gridcases (regridded or in-place re-ordered catalogs, Fortran / transposed tables). array-valued scale factors. evaluated / re-scaled / evaluated histories, on-edge magnitudes. M-test with a catalog bound to other magnitude bins; single-precision magnitude columns; three-decimal magnitude grids.'
 MANIFEST = {
     "technique": "boundary event log around the real _simulate_catalog + offline trace checker aligning test_distribution[j] with simulated catalog j; independent log-pmf oracle on observed statistic of the four public tests",
     "level_text": "For each generated forecast/catalog pair the four public Poisson tests run for real; the observed statistic and every test-distribution entry (aligned with the recorded simulated catalogs) are compared with an independent Poisson log-pmf sum; -inf iff an event lies in a zero-rate bin is decided exactly.",
@@ -80,6 +80,11 @@ def ex_case(ctx, case, test="L", num_sim=5, seed=1, inject=False, layout="C", sc
         fore.scale(scale)
         rates = (rates / scale) * scale
     fn = {"L": pe.likelihood_test, "CL": pe.conditional_likelihood_test, "S": pe.spatial_test, "M": pe.magnitude_test}[test]
+    if test == "M" and seed % 4 == 1 and pre is None:
+        # the catalog is bound to a region object with the same cells but OTHER magnitude bins: the M-test grids the observation on the
+        # forecast's magnitude bins
+        from csep.core.regions import CartesianGrid2D
+        cat.region = CartesianGrid2D.from_origins(reg.origins().copy(), dh=reg.dh, magnitudes=numpy.asarray(reg.magnitudes) - 0.5 * float(case["dmag"]) - 1.0)
     if pre == "rescaled-after-evaluation":
         # history on one forecast object: evaluated under another scale factor, re-scaled to the factor in force, evaluated again
         s0 = fore._scale
